@@ -170,6 +170,44 @@ theorem C14_clone_is_copy (h : Heap) (src : Oid) (h' : Heap) (N : Oid) (hw : Sys
 example : C14ex.okB (cloneSys C14ex.base.heap 2) = true := by decide +kernel
 example : SysWF C14ex.base.heap 2 := sysWF_of_check (by decide +kernel)
 
+/-- **A copy is independent of its source, too.** The statement speaks of changes made on the
+    copy; what a derived system sees when its SOURCE is modified afterwards is not in it. The model
+    answers for `clone()`: whatever modification is applied to the source after the copy was taken,
+    every observation of the copy is unchanged — the copy owns everything it reads. (A reform, by
+    design, shares its baseline's variable objects and, until it modifies parameters, its parameter
+    tree: an in-place parameter update of the baseline shows through; the correspondence covers
+    these histories, the property does not claim them.) -/
+theorem C14_copy_independent_of_source (h : Heap) (src : Oid) (h1 : Heap) (N : Oid) (hw : SysWF h src)
+    (hc : cloneSys h src = .ok (h1, N)) (m : Mod) :
+    (∀ name, varObs (applyMod h1 src m).1 N name = varObs h1 N name) ∧
+    (∀ pn d, paramObs (applyMod h1 src m).1 N pn d = paramObs h1 N pn d) := by
+  have hw0 := hw
+  obtain ⟨s, m0, p, hs, hm, hp, _⟩ := hw0
+  have hinv : Inv h.next h := fun X o hX hl => by rw [look_none_of_ge h hX] at hl; cases hl
+  obtain ⟨g, hN⟩ := good_cloneSys hinv (Nat.le_refl _) src hc
+  have hsrc := lt_next_of_look h (look_of_getSys hs)
+  have hvars := lt_next_of_look h (look_of_getMap hm)
+  have hpar := lt_next_of_look h (look_of_getPar hp)
+  have hs1 : h1.getSys src = some s := by rw [getSys_congr (g.1.1 src hsrc)]; exact hs
+  obtain ⟨wfN, _, hfresh, _, _, sN, _, hsN, _, _, hv, hpp, _⟩ := cloneSys_spec hc hw
+  obtain ⟨sN', mN, pN, hsN', hmN, hpN, heN⟩ := wfN
+  rw [hsN] at hsN'; cases hsN'
+  have other : ∀ i, h.next ≤ i → i < h1.next → (applyMod h1 src m).1.look i = h1.look i := fun i hge hlt =>
+    applyMod_look_other hs1 m hlt (by omega) (by omega) (by omega)
+  refine obs_congr hsN hmN hpN ?_ ?_ ?_ ?_
+  · exact other N (by omega) (lt_next_of_look h1 (look_of_getSys hsN))
+  · exact other _ hv (lt_next_of_look h1 (look_of_getMap hmN))
+  · exact other _ hpp (lt_next_of_look h1 (look_of_getPar hpN))
+  · intro name vid hd
+    have hge : h.next ≤ vid := hfresh name vid (by rw [resolve_eq hsN hmN]; exact hd)
+    obtain ⟨v, hv'⟩ := heN _ (mem_of_dictGet hd)
+    exact other vid hge (lt_next_of_look h1 (look_of_getVar hv'))
+
+example :
+    let st := run C14ex.base [.clone 0, .modify 0 (.neutralize "a")]     -- the SOURCE is modified after the copy
+    st.systems = [2, 9] ∧ (varObs st.heap 2 "a").map (·.isNeutralized) = some true ∧
+    (varObs st.heap 9 "a").map (·.isNeutralized) = some false := by decide +kernel
+
 /-- **One modification is local**: it changes what its target resolves for the names it declares,
     and nothing else of the target — the other names resolve to the same observations, the
     parameters read the same (unless it is a parameter modifier), the system stays well formed. -/
@@ -541,6 +579,7 @@ end OFCore
 #print axioms OFCore.C14_base_calculations_unchanged
 #print axioms OFCore.C14_test_runner_derivation_untouched
 #print axioms OFCore.C14_clone_is_copy
+#print axioms OFCore.C14_copy_independent_of_source
 #print axioms OFCore.C14_modification_local
 #print axioms OFCore.C14_derived_is_base_plus_changes
 #print axioms OFCore.C14_update_inherits
